@@ -28,6 +28,17 @@ Proof.
     try (injection HS as <-; cbn; auto).
 Qed.
 
+(* ... also when the retry interval is zero (no wait at all between attempts): the stop test after
+   the round trip is what ends the loop then *)
+Theorem retry_no_new_attempt_after_cancel_z : forall zero max s l s' c,
+  r_ctx s = Some c -> rstepz zero true max s l = Some s' ->
+  r_attempt s' = r_attempt s /\ r_net s' = r_net s.
+Proof.
+  intros zero max s l s' c HC HS. destruct s as [ph a n x]. cbn in HC. subst x.
+  destruct l as [[]| | |c']; destruct ph; destruct zero; cbn in HS; try discriminate;
+    try (injection HS as <-; cbn; auto).
+Qed.
+
 (* the wait between attempts is left at once, with the cause *)
 Theorem retry_sleep_interruptible : forall max s c,
   r_phase s = PSleep -> r_ctx s = Some c ->
